@@ -82,6 +82,9 @@ func (i *interpreter) newHasher(alg string) value {
 }
 
 func init() {
+	// the process environment: no variable is set
+	stubs["os.Getenv"] = func(fr *frame, args []value) value { return "" }
+	stubs["os.LookupEnv"] = func(fr *frame, args []value) value { return tuple{"", false} }
 	// ---- fmt: formatting is never the subject --------------------------------
 	stubs["fmt.Sprintf"] = func(fr *frame, args []value) value { return "‹fmt›" }
 	stubs["fmt.Sprint"] = func(fr *frame, args []value) value { return "‹fmt›" }
